@@ -121,8 +121,17 @@ Fixpoint index_of (t : ty) (alts : list ty) : nat :=
 Definition alt_ty (alts : list ty) (i : nat) : ty := nth i alts TNullopt.
 
 (* the six relations on encoded values (encodings are monotone within a type and across the
-   class pair), numbered == != < <= > >= *)
-Definition rel_z (k : nat) (x y : Z) : bool :=
+   class pair), numbered == != < <= > >=.
+   A floating alternative can also hold a NaN, encoded as NANV: it is UNORDERED with every value,
+   itself included (IEEE 754 / [expr.rel]): only != answers true.  With it the six relations are
+   independent (x >= y is not the negation of x < y, x <= y is not x < y || x == y ...), so the
+   relational theorems distinguish an operator written with the element type's own operator from
+   one rewritten through another operator.  (The harness feeds NANV only to float / double
+   alternatives; the integer alternatives' values stay far below it.) *)
+Definition NANV : Z := 1000.
+Definition is_nan (x : Z) : bool := Z.eqb x NANV.
+
+Definition rel_tot (k : nat) (x y : Z) : bool :=
   match k with
   | O => Z.eqb x y
   | 1%nat => negb (Z.eqb x y)
@@ -131,6 +140,9 @@ Definition rel_z (k : nat) (x y : Z) : bool :=
   | 4%nat => Z.gtb x y
   | _ => Z.geb x y
   end.
+
+Definition rel_z (k : nat) (x y : Z) : bool :=
+  if is_nan x || is_nan y then Nat.eqb k 1 else rel_tot k x y.
 
 (** * Operation alphabets of the histories (shared vocabulary of model, spec and harness).
     t = false: the operation targets object a (x = a, y = b); t = true: x = b, y = a. *)
